@@ -21,7 +21,7 @@ ID = "C12"
 LEVEL = "model_checking"
 RULE = (
     "configurations: target-host lists {[local], [local, r1], [r1, r2], [r1:9200, r1:9201], [local:9200, local:9201], [local, r1:9200, "
-    "r1:9201]} x {no fault, launcher fails on each host, a remote daemon departs during start-up} x {a non-target daemon / a daemon without "
+    "r1:9201], [local, r1, local], [r1, r2, r1]} x {no fault, launcher fails on each host, a remote daemon departs during start-up} x {a non-target daemon / a daemon without "
     "ip capability also joins} x preserve-install {off, on} plus externally provisioned clusters; per configuration ALL reachable "
     "states: transitions = deliver the head of any sender/receiver channel | fire any pending timer | a remote daemon joins | the departure. "
     "non-trivial = configuration with more than one node actor or a fault; distinct = canonical state"
@@ -45,6 +45,9 @@ HOST_LISTS = {
     "r1x2": [(R1, 9200), (R1, 9201)],
     "localx2": [(LOCAL, 9200), (LOCAL, 9201)],
     "local+r1x2": [(LOCAL, 9200), (R1, 9200), (R1, 9201)],
+    # the same host:port listed again after another host (two nodes on one host, not adjacent in the list)
+    "local,r1,local": [(LOCAL, 9200), (R1, 9200), (LOCAL, 9200)],
+    "r1,r2,r1": [(R1, 9200), (R2, 9200), (R1, 9200)],
 }
 
 
@@ -253,6 +256,9 @@ def run_config(cfgspec, ch, res):
                         started = {c[1] for c in calls if c[0] == "start"}
                         if not external and started != set(groups):
                             return ("engine-started-early", f"EngineStarted although only {sorted(started)} of {sorted(groups)} have started their nodes")
+                        nodes_started = sorted(i for c in calls if c[0] == "create" for i in c[2])
+                        if not external and nodes_started != list(range(len(hosts))):
+                            return ("engine-started-without-all-nodes", f"EngineStarted but node ids {nodes_started} were assigned to hosts, the host list has nodes {list(range(len(hosts)))}")
                         if env["rc"].count("EngineStarted") > 1:
                             return ("engine-started-twice", f"{env['rc']}")
                         if not env["stop_sent"]:
